@@ -85,7 +85,7 @@ CLAIMED = {
              'model of docs/evolve_spec.rst, strict decoding under A rejects exactly the messages containing something A '
              'does not know, A-encoded values decode under B (both modes) with new fields at their defaults.',
         note='Trusted: refmodel/evolve.py (reference old/new view), CrossHair/z3, glue G1-G3. Structural bound: the four '
-             'pairs; holder structs explored one field at a time in the quick tier. Outside: the Void -> non-nullable '
+             'pairs; holder structs explored one field at a time. Outside: the Void -> non-nullable '
              'direction the guide does not promise, Bytes/Timestamp payloads, json string entry points.',
         ref='4 (C07)'),
     'C08': dict(
